@@ -974,6 +974,8 @@ def emit_cases(seed, n, work, spelling=True, only_class=None, named_terms=False,
         env["EMIT_SAME_NAMES"] = "1"; env["EMIT_NAMED_TERMS"] = "1"
     if os.environ.get("_EMIT_PID") in ("C11", "C17", "C01"):
         env["EMIT_CONTROL_TERMS"] = "1"
+    if os.environ.get("_EMIT_PID") in ("C01", "C02"):
+        env["EMIT_SEED_GALLERY"] = "1"
     if os.environ.get("_EMIT_PID") in ("C09", "C10"):
         env["EMIT_GIANT_LEXEME"] = "1"
     if os.environ.get("_EMIT_PID") == "C18":
@@ -1011,7 +1013,7 @@ def run(pid, tier, seed, work, viol_dir, known_ids=()):
         cases = json.load(open(outp))["cases"]
         log = ""
     ncases = {"C03": {"quick": 16, "thorough": 160}, "C07": {"quick": 24, "thorough": 240}, "C17": {"quick": 8, "thorough": 60}, "C13": {"quick": 16, "thorough": 160},
-              "C01": {"quick": 16, "thorough": 160}, "C02": {"quick": 16, "thorough": 160}, "C05": {"quick": 16, "thorough": 160}, "C09": {"quick": 16, "thorough": 160}, "C18": {"quick": 12, "thorough": 120}, "C10": {"quick": 12, "thorough": 120}, "C11": {"quick": 12, "thorough": 120}, "C16": {"quick": 12, "thorough": 120}}[pid][tier]
+              "C01": {"quick": 32, "thorough": 160}, "C02": {"quick": 32, "thorough": 160}, "C05": {"quick": 16, "thorough": 160}, "C09": {"quick": 16, "thorough": 160}, "C18": {"quick": 12, "thorough": 120}, "C10": {"quick": 12, "thorough": 120}, "C11": {"quick": 12, "thorough": 120}, "C16": {"quick": 12, "thorough": 120}}[pid][tier]
     os.environ["_EMIT_PID"] = pid
     if pid != "C03":
       cases, log = emit_cases((seed + {"C01": 101, "C02": 202, "C05": 505, "C09": 909, "C18": 1818, "C10": 1010, "C11": 1111, "C16": 1616}.get(pid, 0)) % 0x7FFFFFFF or 1, ncases, work, spelling=(pid in ("C07", "C01", "C02", "C05", "C09", "C18", "C10", "C11", "C16")), only_class=(1 if pid == "C05" else None), named_terms=(pid == "C09"), always_spelled=(pid in ("C18", "C10", "C11", "C16")), same_names=(pid in ("C01", "C02")))
